@@ -68,6 +68,12 @@ type c20CompIn struct {
 	Msgs []string `json:"msgs"`
 	// Split: write each message in two pieces
 	Split bool `json:"split"`
+	// Via: how a message reaches the compressor: "" one Write (also for the empty message) | writeto
+	// (bytes.Buffer.WriteTo, as connect-go's envelope writer: NO Write at all for an empty message) |
+	// bytes (one Write per byte) | readfrom (io.Copy from a plain reader: chunked Writes, none when empty)
+	Via string `json:"via,omitempty"`
+	// NoPut: the instance is not Reset(io.Discard) after Close (a pool that resets only on Get)
+	NoPut bool `json:"noPut,omitempty"`
 }
 type c20CompOut struct {
 	Outs []*string `json:"outs"` // each destination decoded by a fresh decompressor (null: error)
@@ -242,13 +248,32 @@ func c20Comp(in c20CompIn) c20CompOut {
 			}
 			data = data[len(data)/2:]
 		}
-		if _, err := c.Write(data); err != nil {
-			panic(err)
+		switch in.Via {
+		case "writeto":
+			if _, err := bytes.NewBuffer(data).WriteTo(c); err != nil {
+				panic(err)
+			}
+		case "bytes":
+			for k := range data {
+				if _, err := c.Write(data[k : k+1]); err != nil {
+					panic(err)
+				}
+			}
+		case "readfrom":
+			if _, err := io.Copy(c, struct{ io.Reader }{bytes.NewReader(data)}); err != nil {
+				panic(err)
+			}
+		default:
+			if _, err := c.Write(data); err != nil {
+				panic(err)
+			}
 		}
 		if err := c.Close(); err != nil {
 			panic(err)
 		}
-		c.Reset(io.Discard) // as connect-go's putCompressor
+		if !in.NoPut {
+			c.Reset(io.Discard) // as connect-go's putCompressor
+		}
 	}
 	out := c20CompOut{Outs: make([]*string, len(in.Msgs))}
 	for i := range in.Msgs {
@@ -463,6 +488,48 @@ func runC20(c *gen.Ctx) error {
 			msgs[k] = gen.Hex(c20Payload(r, max))
 		}
 		jobs = append(jobs, c20CompIn{Enc: int32(r.Range(0, 6)), Msgs: msgs, Split: r.Bool()})
+	}
+	// every history of up to 3 (thorough 4) messages over {empty, 1 byte, small, 2 KiB} x every way of handing a
+	// message over x with/without the pool's Reset(io.Discard): what a pooled instance went through before
+	// (an empty message is Reset + Close with no Write at all under WriteTo) must not matter
+	{
+		kinds := []string{"", "00", gen.Hex([]byte("connect conformance")), gen.Hex(c20Payload(r, 2048) )}
+		maxLen := 3
+		if th {
+			maxLen = 4
+		}
+		var hist func(prefix []string)
+		var hists [][]string
+		hist = func(prefix []string) {
+			if len(prefix) > 0 {
+				hists = append(hists, append([]string{}, prefix...))
+			}
+			if len(prefix) == maxLen {
+				return
+			}
+			for _, k := range kinds {
+				hist(append(prefix, k))
+			}
+		}
+		hist(nil)
+		for _, enc := range encs {
+			for _, via := range []string{"", "writeto", "bytes", "readfrom"} {
+				for hi, h := range hists {
+					if !th && via != "writeto" && hi%3 != int(enc)%3 {
+						continue
+					}
+					jobs = append(jobs, c20CompIn{Enc: enc, Msgs: h, Via: via, NoPut: hi%5 == 4})
+					e.Count("comp-history:" + via)
+				}
+			}
+		}
+	}
+	for i := 0; i < nComp; i++ {
+		msgs := make([]string, r.Range(1, 4))
+		for k := range msgs {
+			msgs[k] = gen.Hex(c20Payload(r, 1024))
+		}
+		jobs = append(jobs, c20CompIn{Enc: int32(r.Range(0, 6)), Msgs: msgs, Split: r.Bool(), Via: gen.Pick(r, []string{"writeto", "bytes", "readfrom"}), NoPut: r.Chance(1, 4)})
 	}
 	c.DoParallel("comp", jobs, 8)
 
